@@ -19,7 +19,7 @@ func init() {
 			"and slices inside Set, Record, Pattern, MapSet and EntityUIDSet values are freshly allocated by their constructors/decoders, never stored from a parameter, and no exported function " +
 			"returns them (mod-ref summaries): inputs of constructors and outputs of accessors cannot alias a value's storage; R11.4 insertion (NewSet) and lookup (Contains) probe identically — " +
 			"same start hash, same step, same empty-slot test, same direction of Equal — and nothing else indexes a set's slot map with a key that did not come from that same map (set equality " +
-			"goes through Contains); R11.5 the set hash is a commutative accumulation and the record hash iterates sorted keys; R11.4 also requires both probe loops to end only on a free slot or an equal member; R11.6 hash computations see nested members only through hash/Equal. Not decided: collision behaviour as such, transitivity.",
+			"goes through Contains); R11.5 the set hash is a commutative accumulation and the record hash iterates sorted keys; R11.4 also requires both probe loops to end only on a free slot or an equal member; R11.6 hash computations see nested members only through hash/Equal; R11.7 Set.Equal and Record.Equal walk one side only under equal sizes and answer false on every negative membership answer. Not decided: collision behaviour as such, transitivity.",
 		Run: runC11,
 	})
 }
